@@ -657,6 +657,9 @@ def check(ctx):
         r3_summary_flow(ctx, f, rep)
         r4_flags(ctx, f, rep, eff)
         r5_state_machine(ctx, f, rep, eff)
+        # the reaction to a TurnUndead (Defunct / Rejoin) is not called off by an error in the datagram's custom-broadcast tail
+        from . import c12 as _c12
+        _c12.r4b_tail_does_not_veto(ctx, f, rep, 'C08-R5')
         r6_reevaluate(ctx, f, rep)
         r7_accumulating(ctx, f, rep)
         from . import c10
